@@ -167,7 +167,7 @@ def canon(line, out):
 
 
 def kv(out):
-    return dict(x.split('=') for x in out.split() if '=' in x)
+    return dict(x.split('=', 1) for x in out.split() if '=' in x)
 
 
 def oracle(case, impl):
@@ -231,6 +231,8 @@ def stats(verdicts):
             k = l.split()[0]
             if k == 'check': d['check_' + o] = d.get('check_' + o, 0) + 1
             elif k == 'crc': d['crc'] += 1
+            elif k == 'roundtrip-shared':
+                d['shared_pointer_messages'] = d.get('shared_pointer_messages', 0) + int(l.split()[2])
             elif k.startswith('roundtrip'):
                 d['roundtrips'] += 1
                 kvs = kv(o)
